@@ -13,7 +13,7 @@ from mzverif.core import Failure, Stats, Sub, Violation, call, require
 
 ID = "C09"
 LEVEL = "exploration"
-TECHNIQUE = "metamorphic pairs (copy / single-bit / single-cell / kind / shape / dtype / metadata mutations) compared with a structural-equality oracle; exhaustive endpoint-coordinate grid for constructor bounds (random ones also after earlier operations that failed: damaged loads, rejected constructions / drawings / token streams); mazes hashed in other interpreters and shipped here; Hypothesis dataset pairs; dataset pairs differing in one flag / one interior solution cell / one endpoint / walking direction"
+TECHNIQUE = "metamorphic pairs (copy / single-bit / single-cell / kind / shape / dtype / metadata mutations) compared with a structural-equality oracle; exhaustive endpoint-coordinate grid for constructor bounds (random ones also after earlier operations that failed: damaged loads, rejected constructions / drawings / token streams); mazes hashed in other interpreters and shipped here; Hypothesis dataset pairs; dataset pairs differing in one flag / one interior solution cell / one endpoint / walking direction; the same check on several cases at once, one thread each (interleavings sampled)"
 RULE = (
     "pairs: case = (graph, solution, kind of a, mutation producing b); exhaustive single mutations on all 2x2 graphs plus Hypothesis "
     "up to 6x6 (8x8 thorough). bounds: every (start,end) with coordinates in -2..n+1 on every shape <= 3x3 for targeted and solved "
@@ -438,6 +438,7 @@ def subs(tier: str):
     return [
         Sub("pairs-exhaustive", check_pair, "exhaustive", cases=_exhaustive_pairs, exhaustive_flag=True),
         Sub("pairs-random", check_pair, "hypothesis", strategy=lambda: _random_pair(6 if q else 10), examples=100 if q else 6000),
+        Sub("concurrent-threads", core.threaded(check_pair), "hypothesis", strategy=core.threaded_strategy(lambda: _random_pair(5 if q else 8)), examples=10 if q else 300, ambient=False),
         Sub("bounds-exhaustive", check_bounds, "exhaustive", cases=_bounds_cases, exhaustive_flag=True),
         Sub("bounds-random", check_bounds, "hypothesis", strategy=lambda: _bounds_random(6 if q else 12), examples=60 if q else 3000),
         Sub("shipped-between-processes", check_shipped, "custom", run=_shipped_run(12 if q else 60)),
